@@ -250,6 +250,19 @@ class Gen:
         if self.bufsize and len(payload) + len(topic) + 4 > self.bufsize and r.random() < 0.6:
             self.emit("readall")
         # application takes ownership with the next call
+        if qos and not self.doomed and not self.waiter and r.random() < 0.12 and pkts and pkts[-1][0] >> 4 == 3:
+            # the acknowledgement cannot be written (the connection broke meanwhile): it is owed to the broker on the next connection
+            self.emit("wpol " + r.choice(["e0", "t0", "c0", "e1"]), "rs")
+            self.link, self.parked, self.reader_out, self.doomed = "pending", False, False, False
+            self.subs, self.unsubs, self.ping = [], [], None
+            if r.random() < 0.8:
+                self.emit("dial ok %s" % H(mq.connack(0, 0)), "feed block", "rs", "rs")
+                self.link, self.parked, self.reader_out = "live", True, True
+                self.had_conn = True
+                self.owed = False
+                if qos == 2:
+                    self.markers.add(pid)
+            return
         if r.random() < 0.85 and not self.doomed:
             if self.waiter:
                 return
